@@ -1,7 +1,9 @@
 ---- MODULE Trace_Stubs ----
 (* Trace specification for C20 (code -> spec).  Each trace is
        [init |-> [schema |-> descriptor], events |-> << e1, e2, ... >>]
-   recorded from the real library by a seeded random driver: NewConfig / Touch / GenStub calls
+   recorded from the real library by a seeded random driver (schemas over every field kind of
+   CincoStubs, custom fields and annotations over function-local / nested classes included):
+   NewConfig / Touch / AddDyn / GenStub calls
    with, for GenStub, the abstract content of the stub that generate_stub really returned (read
    back with ast), whether deep snapshots of the schema and of the configurations were equal
    before and after, and after every call the projected heap and everything written to stdout.
@@ -20,6 +22,7 @@ FixM(m)   == [m EXCEPT !.kwonly = Range(@)]
 FixRes(r) == [class    |-> r.class,
               nclasses |-> r.nclasses,
               attrs    |-> Range(r.attrs),
+              attrok   |-> r.attrok,
               ctor     |-> [ok |-> r.ctor.ok, params |-> Range(r.ctor.params)],
               methods  |-> {FixM(r.methods[i]) : i \in DOMAIN r.methods}]
 FixHeap(h) == [i \in DOMAIN h |-> [via |-> h[i].via, set |-> Range(h[i].set), dyn |-> Range(h[i].dyn)]]
